@@ -32,6 +32,8 @@ import (
 // ---------------------------------------------------------------------------------------------------------
 // C38: the miner contract's view-change phase machine, driven block by block through the real Chain.UpdateState
 
+var oplogOut = os.Getenv("VERIF_MINT_OPLOG") != "" // debugging aid: print the operation log as it is written
+
 var phaseNames = []string{"start", "contribute", "share", "publish", "wait"}
 
 func phaseName(p minersc.Phase) string {
@@ -115,6 +117,9 @@ type c38 struct {
 
 func (c *c38) logf(format string, a ...interface{}) {
 	s := fmt.Sprintf(format, a...)
+	if oplogOut {
+		fmt.Println("OP " + s)
+	}
 	c.oplog = append(c.oplog, s)
 	if len(c.oplog) > 400 {
 		c.oplog = c.oplog[len(c.oplog)-400:]
@@ -683,7 +688,7 @@ func (c *c38) planned(v vcState) {
 			cur := c.read(c.bc.State, c.bc.B, false)
 			reveal := map[string]bool{}
 			if c.policy == "revealed-shares" {
-				for mid := range cur.MPKs.Mpks {
+				for _, mid := range sortedKeys(cur.MPKs.Mpks) {
 					if c.r.Chance(0.3) {
 						reveal[mid] = true
 					}
@@ -756,7 +761,7 @@ func (c *c38) hostile(v vcState) {
 	case 7: // too few entries
 		a := pickMiner()
 		sos := c.sosFor(a.W.ID, cur, nil)
-		for k := range sos.ShareOrSigns {
+		for _, k := range sortedKeys(sos.ShareOrSigns) {
 			if len(sos.ShareOrSigns) <= max(0, cur.DKG.K-2) {
 				break
 			}
@@ -776,8 +781,8 @@ func (c *c38) hostile(v vcState) {
 	case 9: // a signature that is not the named miner's
 		a := pickMiner()
 		sos := c.sosFor(a.W.ID, cur, nil)
-		for _, ks := range sos.ShareOrSigns {
-			ks.Sign = a.W.Sign(ks.Message)
+		for _, k := range sortedKeys(sos.ShareOrSigns) {
+			sos.ShareOrSigns[k].Sign = a.W.Sign(sos.ShareOrSigns[k].Message)
 			break
 		}
 		c.publish(a.W, "foreign-signature", sos, nil)
@@ -795,10 +800,10 @@ func (c *c38) hostile(v vcState) {
 			all[id] = true
 		}
 		sos := c.sosFor(a.W.ID, cur, all)
-		for _, ks := range sos.ShareOrSigns {
+		for _, k := range sortedKeys(sos.ShareOrSigns) {
 			var sk hbls.SecretKey
 			sk.SetByCSPRNG()
-			ks.Share = sk.GetHexString()
+			sos.ShareOrSigns[k].Share = sk.GetHexString()
 			break
 		}
 		c.publish(a.W, "bad-revealed-share", sos, nil)
@@ -828,6 +833,16 @@ func (c *c38) hostile(v vcState) {
 }
 
 // ---- block loop and phase oracle ---------------------------------------------------------------------------------------------
+
+// sortedKeys: the generator never lets Go's map order decide anything (histories are functions of VERIF_SEED).
+func sortedKeys[V any](m map[string]V) []string {
+	ks := make([]string, 0, len(m))
+	for k := range m {
+		ks = append(ks, k)
+	}
+	sort.Strings(ks)
+	return ks
+}
 
 func successor(p minersc.Phase) minersc.Phase {
 	if p == minersc.Wait {
